@@ -16,6 +16,11 @@ import (
 	"time"
 
 	enc "github.com/named-data/ndnd/std/encoding"
+	"github.com/named-data/ndnd/std/engine/dummy"
+	"github.com/named-data/ndnd/std/ndn"
+	spec "github.com/named-data/ndnd/std/ndn/spec_2022"
+	sec "github.com/named-data/ndnd/std/security"
+	"github.com/named-data/ndnd/std/utils"
 )
 
 type regModel struct {
@@ -660,7 +665,8 @@ func guard(inputLen int, f func()) (out string, alloc uint64, detail string) {
 		defer func() {
 			if r := recover(); r != nil {
 				out = "PANIC"
-				detail = fmt.Sprint(r)
+				buf := make([]byte, 4096)
+				detail = fmt.Sprint(r) + " @ " + firstFrames(string(buf[:runtimeStack(buf)]))
 			}
 		}()
 		f()
@@ -708,6 +714,7 @@ func TestC04Dec(t *testing.T) {
 				if idx <= from {
 					continue
 				}
+				prog.Truncate(0)
 				prog.Seek(0, 0)
 				fmt.Fprintf(prog, "%d %s %d %s %v %x\n", idx, m.name, sd.k, mu.class, seg, trunc(mu.b, 64))
 				var rd enc.ParseReader
@@ -735,4 +742,103 @@ func TestC04Dec(t *testing.T) {
 		}
 	}
 	emit(w, map[string]any{"ev": "done", "cases": idx, "classes": classes})
+}
+
+// decoders that are not generated models with a public Parse function: the packet reader (private Interest / Data /
+// LpPacket models), the standalone name and component decoders
+type extraDec struct {
+	name  string
+	parse func(r enc.ParseReader) (any, error)
+	seeds [][]byte
+}
+
+func extraDecoders() []extraDec {
+	var pk [][]byte
+	n1, _ := enc.NameFromStr("/a/bb/ccc")
+	h1, _ := enc.NameFromStr("/h")
+	kn, _ := enc.NameFromStr("/k/KEY/1")
+	tm := dummy.NewTimer()
+	add := func(w enc.Wire, err error) {
+		if err == nil {
+			pk = append(pk, w.Join())
+		}
+	}
+	i1, e := spec.Spec{}.MakeInterest(n1, &ndn.InterestConfig{CanBePrefix: true, MustBeFresh: true, ForwardingHint: []enc.Name{h1}, Nonce: utils.IdPtr(uint64(5)),
+		Lifetime: utils.IdPtr(time.Second), HopLimit: utils.IdPtr(uint(3))}, enc.Wire{[]byte("pp")}, sec.NewSha256IntSigner(tm))
+	if e == nil {
+		add(i1.Wire, nil)
+	}
+	i2, e := spec.Spec{}.MakeInterest(n1, &ndn.InterestConfig{}, nil, nil)
+	if e == nil {
+		add(i2.Wire, nil)
+	}
+	d1, e := spec.Spec{}.MakeData(n1, &ndn.DataConfig{Freshness: utils.IdPtr(time.Second), ContentType: utils.IdPtr(ndn.ContentTypeBlob)}, enc.Wire{make([]byte, 300)}, sec.NewHmacSigner(kn, []byte("k"), false, 0))
+	if e == nil {
+		add(d1.Wire, nil)
+		lp := &spec.Packet{LpPacket: &spec.LpPacket{Sequence: utils.IdPtr(uint64(7)), FragIndex: utils.IdPtr(uint64(0)), FragCount: utils.IdPtr(uint64(2)),
+			PitToken: []byte{0, 0, 1, 2, 3, 4}, CongestionMark: utils.IdPtr(uint64(1)), Fragment: d1.Wire}}
+		encd := spec.PacketEncoder{}
+		encd.Init(lp)
+		add(encd.Encode(lp), nil)
+	}
+	if i2 != nil {
+		lp := &spec.Packet{LpPacket: &spec.LpPacket{Nack: &spec.NetworkNack{Reason: 150}, NextHopFaceId: utils.IdPtr(uint64(9)), Fragment: i2.Wire}}
+		encd := spec.PacketEncoder{}
+		encd.Init(lp)
+		add(encd.Encode(lp), nil)
+	}
+	return []extraDec{
+		{"spec.ReadPacket", func(r enc.ParseReader) (any, error) { p, _, err := spec.ReadPacket(r); return p, err }, pk},
+		{"enc.NameFromBytes", func(r enc.ParseReader) (any, error) { n, err := enc.NameFromBytes(r.Range(0, r.Length()).Join()); return n, err }, [][]byte{n1.Bytes(), kn.Bytes()}},
+		{"enc.ReadName", func(r enc.ParseReader) (any, error) { n, err := enc.ReadName(r); return n, err }, [][]byte{n1.Bytes()[2:], kn.Bytes()[2:]}},
+		{"enc.ReadComponent", func(r enc.ParseReader) (any, error) { c, err := enc.ReadComponent(r); return c, err }, [][]byte{n1[2].Bytes()}},
+	}
+}
+
+// TestC04Extra: same mutation classes for the packet reader and the standalone name decoders.
+func TestC04Extra(t *testing.T) {
+	dir := os.Getenv("VERIF_OUT")
+	from := envInt("VERIF_FROM", 0)
+	fo, err := os.OpenFile(filepath.Join(dir, "c04extra.ndjson"), os.O_APPEND|os.O_CREATE|os.O_WRONLY, 0o644)
+	if err != nil {
+		panic(err)
+	}
+	defer fo.Close()
+	w := bufio.NewWriter(fo)
+	defer w.Flush()
+	if from == 0 {
+		emit(w, map[string]any{"ev": "Reset", "models": 4})
+	}
+	idx := 0
+	for _, d := range extraDecoders() {
+		for si, seed := range d.seeds {
+			for _, mu := range mutants(seed, envInt("VERIF_TRUNC", 400)) {
+				for _, seg := range []bool{false, true} {
+					idx++
+					if idx <= from {
+						continue
+					}
+					os.WriteFile(filepath.Join(dir, "c04extra.progress"), []byte(fmt.Sprintf("%d %s %d %s %v %x\n", idx, d.name, si, mu.class, seg, trunc(mu.b, 64))), 0o644)
+					var rd enc.ParseReader
+					if seg && mu.cut > 0 && mu.cut < len(mu.b) {
+						rd = enc.NewWireReader(enc.Wire{mu.b[:mu.cut], mu.b[mu.cut:]})
+					} else {
+						rd = enc.NewBufferReader(mu.b)
+					}
+					decoded := false
+					out, alloc, detail := guard(len(mu.b), func() {
+						v, err := d.parse(rd)
+						decoded = err == nil && v != nil
+					})
+					row := map[string]any{"ev": "dec", "i": idx, "model": d.name, "k": si, "class": mu.class, "seg": seg, "outcome": out, "decoded": decoded, "alloc": alloc, "len": len(mu.b)}
+					if out != "ok" {
+						row["detail"] = detail
+						row["input"] = fmt.Sprintf("%x", trunc(mu.b, 96))
+					}
+					emit(w, row)
+				}
+			}
+		}
+	}
+	emit(w, map[string]any{"ev": "done", "cases": idx})
 }
